@@ -127,7 +127,7 @@ XMLReader::XMLReader(const  XMLCh* const          pubId
     try
     {
         // Do an initial load of raw bytes
-        refreshRawBuffer();
+        loadInitialRawBytes();
     }
     catch (const XMLPlatformUtilsException&)
     {
@@ -218,7 +218,7 @@ XMLReader::XMLReader(const  XMLCh* const          pubId
     try
     {
         // Do an initial load of raw bytes
-        refreshRawBuffer();
+        loadInitialRawBytes();
     }
     catch (const XMLPlatformUtilsException&)
     {
@@ -409,7 +409,7 @@ XMLReader::XMLReader(const  XMLCh* const          pubId
     try
     {
         // Do an initial load of raw bytes
-        refreshRawBuffer();
+        loadInitialRawBytes();
     }
     catch (const XMLPlatformUtilsException&)
     {
@@ -1922,6 +1922,25 @@ void XMLReader::refreshRawBuffer()
 //  trancoded character buffer. We transcode up to another maxChars chars
 //  from the
 //
+//
+//  The encoding auto-sensing and the decoding of the XMLDecl/TextDecl done by
+//  the constructors work on whatever is in the raw buffer, but a stream is
+//  allowed to return fewer bytes than requested. So keep reading until the
+//  buffer is full or the stream is exhausted, otherwise the result of a parse
+//  would depend on how the stream happens to split its first reads.
+//
+void XMLReader::loadInitialRawBytes()
+{
+    refreshRawBuffer();
+    while (fRawBytesAvail && fRawBytesAvail < kRawBufSize)
+    {
+        const XMLSize_t before = fRawBytesAvail;
+        refreshRawBuffer();
+        if (fRawBytesAvail == before)
+            break;
+    }
+}
+
 XMLSize_t
 XMLReader::xcodeMoreChars(          XMLCh* const            bufToFill
                             ,       unsigned char* const    charSizes
